@@ -32,9 +32,9 @@ NBP = [None, 0, 1, 2, 5]
 
 def bounds(tier):
     if tier == "quick":
-        return {"max_pos": 3, "max_neg": 2, "easy": [[0, 0], [1, 2]], "grids": ["irregular", "uint"],
+        return {"max_pos": 3, "max_neg": 2, "easy": [[0, 0], [1, 2]], "grids": ["irregular", "uint", "mixed_narrow", "mixed_narrow_neg"],
                 "nb_points": NBP, "rate_menu": RATE_MENU}
-    return {"max_pos": 4, "max_neg": 3, "easy": [[0, 0], [1, 2], [3, 0]], "grids": ["irregular", "uint", "int", "dyadic"],
+    return {"max_pos": 4, "max_neg": 3, "easy": [[0, 0], [1, 2], [3, 0]], "grids": ["irregular", "uint", "int", "dyadic", "mixed", "mixed_narrow", "mixed_narrow_neg", "mixed_f32"],
             "nb_points": NBP + [11], "rate_menu": RATE_MENU + [[0.25, 0.75, 0.1]]}
 
 
@@ -55,9 +55,14 @@ def run(item, ctx, tier, seed):
 
     b = bounds(tier)
     blocks = [tuple(x) for x in item["blocks"]]
-    pos, neg, vals = ot.concretise(blocks, item["grid"], seed)
+    if item["grid"] in ot.MIXED_KINDS:  # classes stored in different dtypes, the narrower unable to hold the other's values
+        pos, neg, vals, parr, narr = ot.concretise_mixed(blocks, item["grid"])
+        dt = None
+    else:
+        pos, neg, vals = ot.concretise(blocks, item["grid"], seed)
+        dt = {"uint": np.uint8, "int": np.int64}.get(item["grid"], np.float64)
+        parr, narr = np.array(pos[::-1], dtype=dt), np.array(neg[::-1], dtype=dt)
     anytie = any(a + c > 1 for a, c in blocks)
-    dt = {"uint": np.uint8, "int": np.int64}.get(item["grid"], np.float64)
     lo, hi = float(vals[0]), float(vals[-1])
     thr_menu = [None, [lo + 1.0, lo - 5.0, (lo + hi) / 2 + 0.2], [math.inf], "ints"]
     combos = list(itertools.product(range(len(b["rate_menu"])), range(len(b["rate_menu"])), range(len(thr_menu)),
@@ -67,7 +72,7 @@ def run(item, ctx, tier, seed):
         for ep, en in [tuple(e) for e in b["easy"]]:
             base = {"blocks": item["blocks"], "grid": item["grid"], "pos": pos, "neg": neg, "cfg": cfg,
                     "easy": [ep, en]}
-            ok, s0 = guarded(ctx, "construct", base, Scores, np.array(pos[::-1], dtype=dt), np.array(neg[::-1], dtype=dt),
+            ok, s0 = guarded(ctx, "construct", base, Scores, parr.copy(), narr.copy(),
                              nb_easy_pos=ep, nb_easy_neg=en, score_class=sc, equal_class=ec)
             if not ok:
                 continue
@@ -120,7 +125,7 @@ def run(item, ctx, tier, seed):
                       elif thr_in is not None:
                           kw["thresholds"] = np.array(thr_in, dtype=float)
                       snip = ("import numpy as np\nfrom score_analysis import Scores\nfrom score_analysis.roc_curve import roc\n"
-                              f"s = Scores(np.array({pos!r}, dtype=np.{np.dtype(dt).name}), np.array({neg!r}, dtype=np.{np.dtype(dt).name}), "
+                              f"s = Scores(np.array({pos!r}, dtype=np.{parr.dtype.name}), np.array({neg!r}, dtype=np.{narr.dtype.name}), "
                               f"nb_easy_pos={ep}, nb_easy_neg={en}, score_class={sc!r}, equal_class={ec!r})\n"
                               f"r = roc(s, fnr={fnr_in!r}, fpr={fpr_in!r}, thresholds={thr_in!r}, nb_points={nbp!r}, x_axis={ax!r})\n"
                               "print(r.thresholds, r.fnr, r.fpr)\n").replace("inf", "np.inf")
